@@ -187,4 +187,68 @@ def choose (e : Env) (choices : List (Rule × Str)) (default : Option Str) : Exc
     | some d => .ok d
     | none => .error .noChoiceMatched
 
+/-! ### the declarative reading of the property (independent of the evaluator)
+
+Nothing below is executed; the theorems of `Proofs/C14.lean` relate it to `evalRule`. -/
+
+/-- `*` wildcard with backslash escape, no other metacharacter -/
+inductive GlobMatch : Str → Str → Prop where
+  /-- the empty pattern matches the empty string -/
+  | nil : GlobMatch [] []
+  /-- `*` matches any run of characters `s` -/
+  | star (p s t : Str) : GlobMatch p t → GlobMatch ('*' :: p) (s ++ t)
+  /-- `\*` matches a star -/
+  | escStar (p s : Str) : GlobMatch p s → GlobMatch ('\\' :: '*' :: p) ('*' :: s)
+  /-- `\\` matches one backslash -/
+  | escBackslash (p s : Str) : GlobMatch p s → GlobMatch ('\\' :: '\\' :: p) ('\\' :: s)
+  /-- any other character (a backslash that escapes nothing included) matches itself -/
+  | lit (c : Char) (p s : Str) : c ≠ '*' →
+      ¬ (c = '\\' ∧ ∃ e p', p = e :: p' ∧ (e = '*' ∨ e = '\\')) →
+      GlobMatch p s → GlobMatch (c :: p) (c :: s)
+
+/-- strict lexicographic order by code point -/
+inductive CodeLt : Str → Str → Prop where
+  /-- a proper prefix comes first -/
+  | nil (c : Char) (cs : Str) : CodeLt [] (c :: cs)
+  /-- the first differing character decides, by code point -/
+  | head (c d : Char) (cs ds : Str) : c.toNat < d.toNat → CodeLt (c :: cs) (d :: ds)
+  | tail (c : Char) (cs ds : Str) : CodeLt cs ds → CodeLt (c :: cs) (c :: ds)
+
+/-- the five relations over a strict order -/
+def Rel.Holds {α : Type} (r : Rel) (lt : α → α → Prop) (a b : α) : Prop :=
+  match r with
+  | .eq => a = b
+  | .lt => lt a b
+  | .gt => lt b a
+  | .le => lt a b ∨ a = b
+  | .ge => lt b a ∨ a = b
+
+/-- `Matches c x k`: value `x` and constant `k` both have the type comparison `c` is defined
+for, and the relation holds — numbers numerically, strings by code point, booleans by
+identity, timestamps by the instant they denote, StringMatches by `GlobMatch`. -/
+inductive Matches : Cmp → Json → Json → Prop where
+  | boolEq (a : Bool) : Matches .boolEq (.bool a) (.bool a)
+  | num (r : Rel) (a b : Int) : r.Holds (· < ·) a b → Matches (.num r) (.num a) (.num b)
+  | str (r : Rel) (a b : Str) : r.Holds CodeLt a b → Matches (.str r) (.str a) (.str b)
+  | ts (r : Rel) (a b : Str) (ta tb : Ts) : parseTs a = some ta → parseTs b = some tb →
+      r.Holds (· < ·) ta.instant tb.instant → Matches (.ts r) (.str a) (.str b)
+  | glob (p s : Str) : GlobMatch p s → Matches .strMatches (.str s) (.str p)
+
+/-- the JSON type a comparison is defined for -/
+def HasType : Cmp → Json → Prop
+  | .boolEq, x => ∃ b, x = .bool b
+  | .num _, x => ∃ n, x = .num n
+  | .str _, x => ∃ s, x = .str s
+  | .ts _, x => ∃ s t, x = .str s ∧ parseTs s = some t
+  | .strMatches, x => ∃ s, x = .str s
+
+/-- the type fact an `Is…` operator reports about an existing value -/
+def TypeFact : IsOp → Json → Prop
+  | .present, _ => True
+  | .null, x => x = .null
+  | .numeric, x => ∃ n, x = .num n
+  | .string, x => ∃ s, x = .str s
+  | .boolean, x => ∃ b, x = .bool b
+  | .timestamp, x => ∃ s t, x = .str s ∧ parseTs s = some t
+
 end Asl
